@@ -158,7 +158,7 @@ func checkC14(c *Ctx) {
 	g := &SketchGen{Init: plainExact(3, "plain"), Tokens: []int{10, -11, 0}, Weights: []int{2}, Factors: [][2]int{{2, 1}}, Ops: []string{"Add", "Merge", "Copy", "Clear", "Read", "Reweight"}, Q: 4, QDen: 8}
 	c.runSketchMC(g, c.pick(8, 8), "TypeOK K_Content", "K_ReadOnly K_OnlyReceiverChanges K_Copy K_ClearIsInit", "3 sketches, reads and copies")
 	mx := &SketchMatrix{Mappings: mappingMatrix([]float64{0.01, 0.2}, nil), Reals: exactRealKinds, Modes: []string{"every"}, Aspects: map[string]bool{"pure": true}}
-	tree := &SketchGen{Init: plainExact(2, "plain"), Tokens: []int{10, -11, 0}, Weights: []int{132}, Factors: [][2]int{{1, 2}},
+	tree := &SketchGen{Init: plainExact(2, "plain"), Tokens: []int{10, 13, -11}, Weights: []int{132}, Factors: [][2]int{{1, 2}},
 		Ops: []string{"Add", "AddW", "Merge", "Copy", "Clear", "Reweight", "EncDec", "Proto", "Read"}, Q: 4, QDen: 8, Depth: c.pick(3, 4)}
 	c.runSketchGen(tree, mx, c.pick(6, 12), "exhaustive tree with reads and copies")
 	// deep narrow tree: clear / copy / re-fill sequences on both sides of a copy (memory reuse across Clear and Copy)
